@@ -115,7 +115,7 @@ def run(ck):
                "check(verify=True) and check_and_repair; distinct = full case description; non-trivial = at least "
                "one missing or damaged share")
     i = 0
-    while not ck.out_of_time():
+    while ck.more(min_cases=150 if ck.tier == "quick" else 0):   # not by wall clock alone (load: see DESIGN 8.4b)
         i += 1
         if not ck.mine(i):
             continue
